@@ -21,3 +21,10 @@ Check (C03_finished_file_timing_is_exact : (forall b m0 ops m rs s,
   sumN (durations_of (vsamples (m_writer m)) (w_vlast_delta (m_writer m))) < 4294967296 ->
   sumN (durations_of (asamples (m_writer m)) (w_alast_delta (m_writer m))) < 4294967296 ->
   check_C03 b ops (map class_of rs) (sink_of m) = true)%type).
+Check (C03_tick_is_the_rounded_real_product : (forall x : f64,
+  valid_binary prec emax x = true -> is_finite x = true ->
+  (0 <= SF2R radix2 x)%R -> (SF2R radix2 x * 90000 <= IZR (2 ^ 63))%R ->
+  let y := (SF2R radix2 x * 90000)%R in
+  (Rabs (IZR (Z.of_N (tick x)) - RN64 y) <= /2)%R /\
+  (Rabs (RN64 y - y) <= / IZR (2 ^ 53) * y)%R /\
+  (Rabs (IZR (Z.of_N (tick x)) - y) <= /2 + / IZR (2 ^ 53) * y)%R)%type).
